@@ -36,6 +36,7 @@ EXTRA = [
     ('in_as_value', 'P(x, b) :- T(x, l), b == (x in l);\nQ(x) :- T(x, l), !(x in l);\nR(x, if x in l then 1 else 0) :- T(x, l);\nU(x) :- T(x, l), (x in l) || x > 1;\n', ['P', 'Q', 'R', 'U']),
     ('mixed_record', 'P(x, name: y) :- T(x, y);\nQ(r:) :- P(..r);\nR({x, name: y}) :- T(x, y);\nS(l? List= {x, name: y}) distinct :- T(x, y);\n', ['Q', 'R', 'S']),
     ('mixed_record_typed', 'P(1, name: "a");\nP(2, name: "b");\nQ(r:) :- P(..r);\nR({x, name: y}) :- P(x, name: y);\nS(l? List= {x, name: y}) distinct :- P(x, name: y);\n', ['Q', 'R', 'S']),
+    ('bodyless_combine', 'Q(x, s) :- T(x, y), s == Sum{x * 2};\nR(x, l, m) :- T(x, y), l == List{y}, m == Max{x + y}, m > 0;\n', ['Q', 'R']),
     ('order_limit', '@OrderBy(P, "col0 desc", "col1");\n@Limit(P, 2);\nP(x, y) :- T(x, y);\nQ(x) :- P(x, y);\n', ['P', 'Q']),
 ]
 
